@@ -6,7 +6,7 @@ import ast
 from sa import flow
 from sa.model import AnalysisError, dotted, unparse
 from sa.rules import rule
-from sa.rules.util import is_self_attr, iter_body_nodes
+from sa.rules.util import is_self_attr, iter_body_nodes, own_methods
 
 
 @rule(
@@ -29,10 +29,37 @@ def r07a(ctx):
     af = model.method(fm, "apply_func", own=True).node
     good = any(isinstance(r, ast.Return) and dotted(r.value) == "apply_and_enforce" and any(ast.unparse(tt) == "self.enforce_metadata" and pol for tt, pol in flow.facts(p)) for p in flow.returns(af) for r in [p.stmt])
     (ctx.ok if good else ctx.bad)("io.io.FromMap.apply_func", fm.module.loc(af), "apply_and_enforce under enforce_metadata" if good else "FromMap no longer routes the user function through apply_and_enforce when enforce_metadata is set")
-    ak = model.method(fm, "apply_kwargs", own=True).node
-    txt = ast.unparse(ak)
-    good = "'_func': self.func" in txt and "'_meta': self._meta" in txt
-    (ctx.ok if good else ctx.bad)("io.io.FromMap.apply_kwargs", fm.module.loc(ak), "_func and _meta passed to apply_and_enforce" if good else "FromMap.apply_kwargs no longer passes `_func` and `_meta` (the declared meta) to apply_and_enforce")
+    for c, m in own_methods(model, "apply_kwargs"):
+        if fm not in c.mro:
+            continue
+        ak = m.node
+        func_ok = meta_ok = False
+        for d in (n for n in ast.walk(ak) if isinstance(n, ast.Dict)):
+            for k, v in zip(d.keys, d.values):
+                if isinstance(k, ast.Constant) and k.value == "_func" and ast.unparse(v) == "self.func":
+                    func_ok = True
+                if isinstance(k, ast.Constant) and k.value == "_meta":
+                    # every class that runs this definition must hand over ITS declared meta
+                    heirs = [h for h in model.subclasses(c) if h.provider("apply_kwargs") is not None and h.provider("apply_kwargs").node is ak]
+                    meta_ok = bool(heirs) and all(_is_declared_meta(model, h, v) for h in heirs)
+        good = func_ok and meta_ok
+        cid = "io.io.FromMap.apply_kwargs" if c is fm else f"{c.qual}.apply_kwargs"
+        (ctx.ok if good else ctx.bad)(cid, c.module.loc(ak), "_func and _meta passed to apply_and_enforce" if good else f"{c.name}.apply_kwargs no longer passes `_func` and `_meta` (the declared meta) to apply_and_enforce")
+
+
+def _is_declared_meta(model, cls, v, depth=2):
+    """self._meta / self.frame_meta, or a property of cls that returns one of them"""
+    if not (isinstance(v, ast.Attribute) and isinstance(v.value, ast.Name) and v.value.id == "self"):
+        return False
+    if v.attr in ("_meta", "frame_meta"):
+        return True
+    if depth <= 0:
+        return False
+    mem = cls.provider(v.attr)
+    if mem is None or mem.kind not in ("property", "cached_property"):
+        return False
+    rets = [r.value for r in ast.walk(mem.node) if isinstance(r, ast.Return) and r.value is not None]
+    return bool(rets) and all(_is_declared_meta(model, cls, r, depth - 1) for r in rets)
 
 
 def _enforce_site(ctx, cls, fn, cid, guarded_by):
